@@ -10,6 +10,8 @@ dst=/verif/seeded/$id-$v
 S=/tmp/vf_seed.$$; rm -rf $S; mkdir -p $S
 git -C /repo archive HEAD | tar -x -C $S
 mkdir -p $S/seed_out/$v; cp $src/demo.* $src/build.sh $S/seed_out/$v/ 2>/dev/null
+# some agents wrote absolute paths of their own worktree into build.sh: make them relative to the tree under test
+sed -i "s#/tmp/seed/$id/##g" $S/seed_out/$v/build.sh
 # demo on the clean tree
 ( cd $S && bash seed_out/$v/build.sh > $S/demo_clean.out 2>&1 ); clean_rc=$?
 ( cd $S && git init -q . && git apply --whitespace=nowarn $src/patch.diff ) || { echo "patch does not apply"; rm -rf $S; exit 2; }
@@ -26,6 +28,7 @@ for p in $id $extra; do
 done
 cp /tmp/vf_ev.$$/*.json /verif/evidence/; rm -rf /tmp/vf_ev.$$
 mkdir -p $dst; cp $src/patch.diff $src/demo.* $src/build.sh $src/NOTES.md $dst/ 2>/dev/null
+sed -i "s#/tmp/seed/$id/##g" $dst/build.sh
 needs=$(grep -i -m1 -A3 "trigger" $src/NOTES.md | tr '\n' ' ' | cut -c1-400 | sed 's/"/\\"/g; s/\\/\\\\/g')
 cat > $dst/meta.json <<EOM
 {
